@@ -10,8 +10,11 @@ Fixpoint size_params (ps : params) : nat :=
   | PCons _ _ _ _ d r => (match d with Some e => size_e e | None => 0 end) + size_params r
   end%nat.
 
+Fixpoint size_ckws (k : ckws) : nat := match k with KNil => 0 | KCons _ e r => size_e e + size_ckws r end%nat.
+
 Fixpoint size_s (s : stmt) : nat :=
   match s with
+  | SClass _ _ bases kws decos b0 bs => 1 + size_es bases + size_ckws kws + size_es decos + size_s b0 + size_ss bs
   | SDef _ _ ps b0 bs => 1 + size_params ps + size_s b0 + size_ss bs
   | SExpr _ e => 1 + size_e e
   | SAssign _ t v => 1 + size_es t + size_e v
@@ -87,6 +90,15 @@ Proof.
   - destruct d; [split; [auto | lia] | exact Logic.I].
 Qed.
 
+Lemma read_ckws_ok : forall kw, wf_ckws kw -> forall f k, (size_ckws kw <= f)%nat ->
+  read_n (read_ckw_with (read_expr f)) (len_ckws kw) (emit_ckws kw k) = Some (conv_ckws kw, k).
+Proof.
+  induction kw as [|n e r IH]; intros Hw f k Hf; [reflexivity|].
+  cbn [wf_ckws size_ckws] in *. destruct Hw as [He Hr].
+  cbn [len_ckws emit_ckws read_n conv_ckws]. unfold read_ckw_with at 1, str_k.
+  rewrite read_expr_ok by (auto; lia). rewrite IH by (auto; lia). reflexivity.
+Qed.
+
 Definition Ps (s : stmt) := wf_s s -> forall f k, (size_s s <= f)%nat -> read_stmt f (emit_s s k) = Some (conv_s s, k).
 Definition Pss (ss : stmts) := wf_ss ss -> forall f k, (size_ss ss <= f)%nat ->
   read_n (read_stmt f) (len_ss ss) (emit_ss ss k) = Some (conv_ss ss, k).
@@ -110,6 +122,12 @@ Proof. intros f o K Ho Wo Hf. apply read_oblock_ok. apply Ho; auto. Qed.
 Lemma read_stmt_ok_all : (forall s, Ps s) /\ (forall ss, Pss ss) /\ (forall el, Pel el).
 Proof.
   apply stmt_all_mut; unfold Pel; try (intros; exact Logic.I).
+  - (* SClass *) intros p name bases kws decos b0 IH0 bs IHs Hw f k Hf. fuel f. cbn [wf_s size_s] in *.
+    destruct Hw as [Wb [Wk [Wd [W0 Ws]]]]. cbn [emit_s read_stmt]. unfold str_k. red1.
+    rewrite (block_from_IH f b0 bs) by (auto; lia). red1.
+    rewrite read_exprs_ok by (auto; lia). red1.
+    rewrite read_exprs_ok by (auto; lia). red1.
+    rewrite read_ckws_ok by (auto; lia). red1. apply loc_finish_ok.
   - (* SDef *) intros p name ps b0 IH0 bs IHs Hw f k Hf. fuel f. cbn [wf_s size_s] in *.
     destruct Hw as [Wp [W0 Ws]]. cbn [emit_s read_stmt]. unfold str_k. red1.
     rewrite read_params_ok by (auto; lia). red1.
@@ -210,8 +228,18 @@ Proof.
   destruct d as [e|]; [pose proof (proj1 size_le_ntok_all e)|]; lia.
 Qed.
 
+Fixpoint ntok_ckws (k : ckws) : nat := match k with KNil => 0 | KCons _ e r => 2 + ntok_e e + ntok_ckws r end%nat.
+Lemma len_emit_ckws : forall kw k, List.length (emit_ckws kw k) = (ntok_ckws kw + List.length k)%nat.
+Proof.
+  induction kw as [|n e r IH]; intros; cbn [emit_ckws ntok_ckws]; [lia|].
+  unfold str_k. cbn [List.length]. rewrite (proj1 emit_e_length_all). rewrite IH. lia.
+Qed.
+Lemma size_le_ntok_ckws : forall kw, (size_ckws kw <= ntok_ckws kw)%nat.
+Proof. induction kw as [|n e r IH]; cbn [size_ckws ntok_ckws]; [lia|]. pose proof (proj1 size_le_ntok_all e). lia. Qed.
+
 Fixpoint ntok_s (s : stmt) : nat :=
   match s with
+  | SClass _ _ bases kws decos b0 bs => 21 + ntok_es bases + ntok_ckws kws + ntok_es decos + ntok_s b0 + ntok_ss bs
   | SDef _ _ ps b0 bs => 19 + ntok_params ps + ntok_s b0 + ntok_ss bs
   | SExpr _ e => 2 + ntok_e e
   | SAssign _ t v => 11 + ntok_es t + ntok_e v
@@ -237,7 +265,7 @@ Proof.
     cbn [emit_s emit_ss emit_elifs ntok_s ntok_ss ntok_el];
     repeat match goal with H : forall k : list tok, List.length (emit_ss (SCons _ _) k) = _ |- _ => cbn [emit_ss ntok_ss] in H end;
     repeat (cbn [List.length str_k int_k loc_k blk];
-            first [ rewrite He | rewrite Hes | rewrite len_emit_params
+            first [ rewrite He | rewrite Hes | rewrite len_emit_params | rewrite len_emit_ckws
                   | match goal with H : forall k : list tok, List.length _ = _ |- _ => rewrite H end ]);
     unfold str_k, int_k, loc_k, blk; cbn [List.length]; lia.
 Qed.
@@ -248,6 +276,7 @@ Proof.
   destruct size_le_ntok_all as [He [Hes _]].
   apply stmt_all_mut; intros; cbn [size_s size_ss size_el ntok_s ntok_ss ntok_el];
     try match goal with |- context [size_params ?ps] => pose proof (size_le_ntok_params ps) end;
+    try match goal with |- context [size_ckws ?ps] => pose proof (size_le_ntok_ckws ps) end;
     repeat match goal with
     | |- context [size_e ?e] => lazymatch goal with _ : (size_e e <= ntok_e e)%nat |- _ => fail | _ => pose proof (He e) end
     | |- context [size_es ?e] => lazymatch goal with _ : (size_es e <= ntok_es e)%nat |- _ => fail | _ => pose proof (Hes e) end
